@@ -608,6 +608,12 @@ class PathResolver:
                 res.append(p)
         return res
 
+    def _stored_names(self):
+        if getattr(self, '_stored', None) is None:
+            self._stored = {n.id for n in own_nodes(self.f.node)
+                            if isinstance(n, ast.Name) and isinstance(n.ctx, (ast.Store, ast.Del))}
+        return self._stored
+
     def tpaths(self, e, node) -> list[Path]:
         ps = self.paths(e, node)
         self.last_sure = len(ps) == 1
@@ -720,6 +726,28 @@ class PathResolver:
         ce = self._comp_elems(iter_expr, node) if not idx else None
         if ce is not None:
             return ce
+        # zip(a, b, ...): position i of the loop target ranges over the elements of argument i
+        if isinstance(iter_expr, ast.Call) and isinstance(iter_expr.func, ast.Name) and iter_expr.func.id == 'zip' \
+                and idx and idx[0] < len(iter_expr.args):
+            return self._iter_elem_paths(iter_expr.args[idx[0]], idx[1:], node)
+        # a local bound once to a snapshot / wrapper of another collection: same elements
+        if isinstance(iter_expr, ast.Name) and node is not None:
+            defs = self.cfg.reaching(node, iter_expr.id)
+            if len(defs) == 1 and defs[0].kind == 'stmt' and isinstance(defs[0].ast, (ast.Assign, ast.AnnAssign)) \
+                    and defs[0].ast.value is not None:
+                v = defs[0].ast.value
+                inner = None
+                if isinstance(v, ast.Call) and isinstance(v.func, ast.Name) and v.func.id in (
+                        'list', 'tuple', 'sorted', 'reversed', 'set', 'frozenset') and len(v.args) == 1:
+                    inner = v.args[0]
+                elif isinstance(v, ast.Subscript) and isinstance(v.slice, ast.Slice):
+                    inner = v.value
+                elif isinstance(v, ast.Call) and isinstance(v.func, ast.Attribute) and v.func.attr == 'copy' and not v.args:
+                    inner = v.func.value
+                elif isinstance(v, ast.Call) and isinstance(v.func, ast.Name) and v.func.id == 'zip':
+                    inner = v
+                if inner is not None and self._depth < 20:
+                    return self._iter_elem_paths(inner, idx, defs[0])
         # a local list filled by appends: its elements are what was appended
         if isinstance(iter_expr, ast.Name) and node is not None and not idx:
             defs = self.cfg.reaching(node, iter_expr.id)
@@ -848,6 +876,9 @@ class PathResolver:
             if node is None:
                 return [Path(('unk', e.id))]
             defs = self.cfg.reaching(node, e.id)
+            if not defs and e.id in self._stored_names():
+                # bound in this function (walrus in the same statement, conditional path...): a local
+                return [Path(('unk', e.id))]
             if not defs:
                 # closure variable of the enclosing function, module global, builtin
                 g = self.f.parent
